@@ -464,6 +464,23 @@ func c17Shapes() []c17Shape {
 			}
 			return []hEntry{hEnt(nm, hSym(e.fileTarget(d))), hEnt(e.respell(nm), e.file("over"))}, []string{nm}
 		}},
+		{label: "same-name symlink-then-file, target looks local but runs through another symlink", wrote: true, dir: func(e *hEnv, d int) ([]hEntry, []string) {
+			// hop 1: a link to a directory above out/; hop 2: a link whose target has neither a leading
+			// separator nor a dot-dot segment but starts with hop 1; then a file under hop 2's name
+			nm := c17Pool[e.r.Intn(3)]
+			hop := e.uniq("hop")
+			via := strings.TrimSuffix(up(d), "/")
+			if e.r.Intn(3) == 0 {
+				via = e.S
+			}
+			rest := []string{"victim.txt", "created-by-escape", "victimdir/file", "victimdir/created-by-escape", "out.old/victim.txt"}[e.r.Intn(5)]
+			ents := []hEntry{hEnt(hop, hSym(via)), hEnt(nm, hSym(hop+"/"+rest)), hEnt(e.respell(nm), e.file("over"))}
+			if e.r.Intn(3) == 0 { // three hops
+				hop2 := e.uniq("hop")
+				ents = []hEntry{hEnt(hop, hSym(via)), hEnt(hop2, hSym(hop)), hEnt(nm, hSym("./"+hop2+"/"+rest)), hEnt(e.respell(nm), e.file("over"))}
+			}
+			return ents, []string{nm}
+		}},
 		{label: "same-name symlink-then-directory", wrote: true, dir: func(e *hEnv, d int) ([]hEntry, []string) {
 			nm := c17Pool[e.r.Intn(3)]
 			inner := hDir(hEnt("file", e.file("indir")), hEnt("victim.txt", e.file("indir")), hEnt("newsub", hDir(hEnt("deep.txt", e.file("deep")))))
@@ -859,7 +876,7 @@ func runC17(t *mon.T, raw json.RawMessage) {
 	// modes: always -f and stdin; one of the three ways of naming the output directory;
 	// -p variants when the shape offers paths.
 	pick := gen.Rand(d.Seed ^ 0x17)
-	modes := []string{"-f", "stdin", []string{"cwd", "relative-outdir", "outdir-via-symlink"}[pick.Intn(3)], "-f -p", "stdin -p"}
+	modes := []string{"-f", "stdin", []string{"cwd", "relative-outdir", "outdir-via-symlink", "outdir-dotdot-behind-symlink"}[pick.Intn(4)], "-f -p", "stdin -p"}
 	pIdx := pick.Intn(1 << 20)
 	verbose := pick.Intn(4) == 0
 
@@ -925,6 +942,19 @@ func runC17(t *mon.T, raw json.RawMessage) {
 				args = append(args, "-f", "../in.car", "../out")
 			case "outdir-via-symlink":
 				args = append(args, "-f", carPath, filepath.Join(box.S, "outlink"))
+			case "outdir-dotdot-behind-symlink":
+				// the output directory is named as <link>/.. where the link leads to a directory inside out/:
+				// the operating system resolves that to out/ (a lexical clean-up would make it work/)
+				anchor := filepath.Join(box.Out, ".anchor")
+				if err := os.MkdirAll(anchor, 0o755); err != nil {
+					panic(err)
+				}
+				hop := filepath.Join(box.S, "work", "hop")
+				os.Remove(hop)
+				if err := os.Symlink(filepath.Join("..", "out", ".anchor"), hop); err != nil {
+					panic(err)
+				}
+				args = append(args, "-f", carPath, hop+"/..")
 			}
 
 			before, err := snapshotTree(box.T, box.Out)
@@ -954,6 +984,12 @@ func runC17(t *mon.T, raw json.RawMessage) {
 				panic(err)
 			}
 			outAfter, err := snapshotTree(box.Out)
+			if err != nil && os.IsNotExist(err) {
+				// the output directory itself is gone: its entry lives in its parent, which is outside
+				t.ViolateD("car-extract/"+keyPart(d.Shape)+"/output-directory-itself-removed", map[string]any{"args": strings.ReplaceAll(quoteArgs(args), box.T, "$T"), "exit": res.Exit, "stderr": res.Stderr},
+					"car extract removed the output directory it was given (shape %q, mode %s)", d.Shape, mode)
+				return
+			}
 			if err != nil {
 				panic(err)
 			}
